@@ -55,7 +55,7 @@ def gen(path):
     out = {}
     runs = []
     for _ in range(spec.get("repeat", 1)):
-        g = cg.generate(files, spec["main"], options=opts, pkg="xvc12pkg")
+        g = cg.generate(files, spec["main"], options=opts, pkg=spec.get("pkg", "xvc12pkg"))
         if g.error is not None:
             runs.append({"error": f"{type(g.error).__name__}: {g.error}"})
         else:
